@@ -55,7 +55,19 @@ impl VAct {
 pub fn gen_vcase(c: &mut Chooser, allow_j: bool) -> VCase {
     let n_src = 1 + c.choose(2);
     // virtual microseconds; periods need not be whole milliseconds
-    let periods: Vec<u64> = (0..n_src).map(|_| [300u64, 500, 900, 1000, 1500, 1950, 2000, 2500, 3000, 7000][c.choose(10)]).collect();
+    // one case in sixteen lives on the scale of hours and days (every source of the case, so that an
+    // advance of a day does not mean hundreds of millions of ticks of a fast sibling)
+    const H: u64 = 3_600_000_000;
+    let long = c.chance(1, 16);
+    let periods: Vec<u64> = (0..n_src)
+        .map(|_| {
+            if long {
+                [H, 2 * H + 1, 24 * H, 24 * H + 40_000, 25 * H, 48 * H, 72 * H + 999, 168 * H][c.choose(8)]
+            } else {
+                [300u64, 500, 900, 1000, 1500, 1950, 2000, 2500, 3000, 7000, 1001, 6_999][c.choose(12)]
+            }
+        })
+        .collect();
     let n_subs = 1 + c.choose(4);
     let subs = (0..n_subs)
         .map(|_| {
@@ -126,7 +138,16 @@ pub fn run_vcase(case: &VCase, c: &mut Chooser, seed_rng: Rng) -> VResult {
         if next_sub < case.subs.len() {
             acts.push((VAct::Subscribe(next_sub), 5));
         }
-        acts.push((VAct::Advance(50 * (1 + c.choose(280)) as u64), 10));
+        let min_period = case.periods.iter().copied().min().unwrap_or(1000);
+        if min_period >= 1_000_000 {
+            // slow sources: advance by fractions and multiples of one of the periods (at most a
+            // couple of hundred ticks per step), or by a short while
+            let p = case.periods[c.choose(case.periods.len())];
+            let d = [40_000u64, 1_000_000, p / 2, p - 1, p, p + 1, 2 * p + 7, 86_400_000_000][c.choose(8)];
+            acts.push((VAct::Advance(d.max(1)), 10));
+        } else {
+            acts.push((VAct::Advance(50 * (1 + c.choose(280)) as u64), 10));
+        }
         for (i, r) in rts.iter().enumerate() {
             if r.probe.can_act() {
                 acts.push((VAct::Dispose(i, false), 1));
